@@ -47,11 +47,23 @@ fn problem(k: usize, backward: bool) -> (Prob, f64) {
         2 => (mk("blowup y'=y^2", 1, vec![1.0], Arc::new(|_t, y, d| d[0] = y[0] * y[0])), 2.0),
         3 => (mk("blowup y'=1+y^2", 1, vec![0.0], Arc::new(|_t, y, d| d[0] = 1.0 + y[0] * y[0])), 3.0),
         4 => (mk("stiff decay 1e4", 1, vec![0.0], Arc::new(|t, y, d| d[0] = -1e4 * (y[0] - t.cos()))), 0.05),
+        // resonances: a first step for which the iteration matrix of the first attempt is exactly
+        // singular in floating point (BDF: I - (h/1.185) J with h = 1.185, J = 1; Radau:
+        // (U1/h) I - J with h = 1, J = U1): the retry has to change something
+        7 => (mk("growth y'=y (BDF resonance h=1.185)", 1, vec![1.0], Arc::new(|_t, y, d| d[0] = y[0])), 2.0),
+        8 => {
+            let mut p = mk("growth y'=U1*y (Radau resonance h=1)", 1, vec![1.0], Arc::new(|_t, y, d| d[0] = RADAU_U1 * y[0]));
+            p.jac = Some(Arc::new(move |_t, _y| vec![s * RADAU_U1]));
+            (p, 1.5)
+        }
         5 => (mk("rhs discontinuous in t", 1, vec![1.0], Arc::new(|t, y, d| d[0] = -y[0] + if t > 0.7 { 5.0 } else { 0.0 })), 2.0),
         _ => (mk("rhs discontinuous in y", 1, vec![0.0], Arc::new(|_t, y, d| d[0] = if y[0] > 0.5 { -2.0 } else { 1.0 })), 1.0),
     }
 }
-const NPROB: usize = 7;
+const NPROB: usize = 9;
+/// real eigenvalue of the inverse Radau IIA matrix as written in radau.rs (the resonance scene is
+/// only a scene: if the constant differed the run would simply not meet a singular matrix)
+const RADAU_U1: f64 = 3.637_834_252_744_496;
 
 #[derive(Clone, Debug)]
 struct Base {
@@ -60,6 +72,10 @@ struct Base {
     backward: bool,
     max_steps: Option<usize>,
     min_step: Option<f64>,
+    /// first_step option (absolute length; the sign follows the direction)
+    first_step: Option<f64>,
+    /// 7 requested times and dense output (values then come from the step interpolants)
+    teval: bool,
 }
 
 fn bases() -> Vec<Base> {
@@ -70,7 +86,20 @@ fn bases() -> Vec<Base> {
                 for max_steps in [None, Some(40)] {
                     let mins: Vec<Option<f64>> = if crate::run::is_implicit(m) { vec![None, Some(1e-3)] } else { vec![None] };
                     for min_step in mins {
-                        v.push(Base { method: m, prob: p, backward, max_steps, min_step });
+                        let span = problem(p, backward).1;
+                        // automatic initial step; a first step of twice the interval (the solver trims
+                        // it: the first attempt already reaches for xend); the resonant lengths
+                        let fss: Vec<Option<f64>> = match p {
+                            7 => vec![Some(1.185), Some(1.185 / 2.0)],
+                            8 => vec![Some(1.0), Some(0.5)],
+                            _ => vec![None, Some(2.0 * span)],
+                        };
+                        for first_step in fss {
+                            v.push(Base { method: m, prob: p, backward, max_steps, min_step, first_step, teval: false });
+                        }
+                        if p < 7 && min_step.is_none() {
+                            v.push(Base { method: m, prob: p, backward, max_steps, min_step, first_step: None, teval: true });
+                        }
                     }
                 }
             }
@@ -94,6 +123,12 @@ fn cfg_of(b: &Base) -> (Prob, Cfg) {
     let mut c = Cfg::new(b.method, 0.0, xend, &p.y0).tol(1e-4, 1e-6);
     c.max_steps = b.max_steps;
     c.min_step = b.min_step;
+    c.first_step = b.first_step.map(|h| if b.backward { -h } else { h });
+    c.user_jac = p.jac.is_some();
+    if b.teval {
+        c.t_eval = Some((0..=6).map(|i| xend * i as f64 / 6.0).collect());
+        c.dense = true;
+    }
     c.budget = 1_000_000;
     (p, c)
 }
